@@ -100,6 +100,7 @@ def _cases(rng, n):
     _cases_t14(rng, n, reqs, want)  # --- T14
     _cases_t7(rng, n, reqs, want)  # --- T7
     _cases_t9(rng, n, reqs, want)  # --- T9
+    _cases_t15(rng, n, reqs, want)  # --- T15
     # --- T11: `sorted(xs)` of ints (duplicates, negatives, already sorted / reversed inputs)
     for _ in range(n // 2):
         xs = [rng.randrange(-9, 10) for _ in range(rng.randrange(0, 9))]
@@ -466,7 +467,108 @@ def _cases_t7(rng, n, reqs, want):
 # --- end T7
 
 
-_STRUCTURED = ("t2_", "t4_", "t14_", "t7_", "t9_")  # prelude ops whose answers are structured (compared after normalising ints)
+# --- T15: the numpy prelude of the `--- T15` block of OQ/Exec/Py.lean (op `t15_np` of the driver) against numpy itself
+def _cases_t15(rng, n, reqs, want):
+    """--- T15: u1 buffers and their wrapping subtraction, reshape(-1, n), shapes, fancy column indexing (negative / out-of-range indices,
+    arrays without rows or without columns), row sums, array-scalar arithmetic (Python's floored `%`), 1-d and 2-d broadcasting (`*`, `-`,
+    outer products, incompatible shapes), true division by an int (0 included: non-finite entries), np.zeros, item reads / writes with
+    negative and out-of-range indices, np.array of int tuples (inhomogeneous, empty), enumerate"""
+    import math
+    import warnings
+    from fractions import Fraction
+    import numpy as np
+
+    def exc(thunk, f):
+        try:
+            return {"ok": f(thunk())}
+        except IndexError:
+            return {"err": "index"}
+        except ValueError:
+            return {"err": "value"}
+
+    def a2(M):
+        M = np.asarray(M)
+        assert M.ndim == 2
+        return {"w": str(M.shape[1]), "rows": [[str(int(x)) for x in r] for r in M.tolist()]}
+
+    def ints(v):
+        return [str(int(x)) for x in np.asarray(v).tolist()]
+
+    def R(x):
+        f = Fraction(x)
+        return str(f.numerator) if f.denominator == 1 else f"{f.numerator}/{f.denominator}"
+
+    def mat(r, c):
+        return [[rng.randrange(-3, 4) for _ in range(c)] for _ in range(r)]
+    with warnings.catch_warnings():
+        warnings.simplefilter("ignore")
+        for _ in range(n):
+            xs = [rng.randrange(-5, 6) for _ in range(rng.choice([0, 1, 1, 2, 3, 4, 6]))]
+            ys = [rng.randrange(-5, 6) for _ in range(rng.choice([len(xs), len(xs), 1, 0, 2, 3]))]
+            s = "".join(rng.choice("01012a /~z") for _ in range(rng.randrange(0, 7)))
+            k, m = rng.randrange(-4, 5), rng.choice([0, 0, 1, 2, 3, 4, -1, 8])
+            ar, aw = rng.choice([0, 1, 2, 3]), rng.choice([0, 1, 2, 3])
+            br, bw = rng.choice([ar, ar, 1, 2]), rng.choice([aw, aw, 1, 3])
+            A, B = np.array(mat(ar, aw), dtype=int).reshape(ar, aw), np.array(mat(br, bw), dtype=int).reshape(br, bw)
+            idx = [rng.randrange(-aw - 1, aw + 1) for _ in range(rng.randrange(0, 4))]
+            i, i2 = rng.randrange(-ar - 1, ar + 1), rng.randrange(-aw - 1, aw + 1)
+            tuples = [[rng.randrange(2) for _ in range(rng.choice([2, 2, 2, 1, 0]))] for _ in range(rng.choice([0, 1, 2, 3]))]
+            X, Y = np.array(xs, dtype=int), np.array(ys, dtype=int)
+            reqs.append(("t15_np", {"xs": xs, "ys": ys, "s": s, "k": k, "n": m, "i": i, "i2": i2, "aw": aw, "arows": A.tolist(),
+                                    "bw": bw, "brows": B.tolist(), "idx": idx, "tuples": tuples}))
+
+            def truediv():
+                q = X / m
+                if not all(math.isfinite(v) for v in q.tolist()):
+                    return {"err": "zeroDiv"}
+                assert all(float(Fraction(x, m)) == v for x, v in zip(xs, q.tolist()))
+                return {"ok": [R(Fraction(x, m)) for x in xs]}
+
+            def divs2():
+                q = A.astype(complex) / m
+                rows = []
+                for r, src in zip(q.tolist(), A.tolist()):
+                    row = []
+                    for v, x in zip(r, src):
+                        fin = math.isfinite(v.real) and math.isfinite(v.imag)
+                        assert (not fin) or (v.imag == 0 and float(Fraction(x, m)) == v.real)
+                        row.append(R(Fraction(x, m)) if fin else None)
+                    rows.append(row)
+                return {"w": str(aw), "rows": rows}
+
+            def set2():
+                C = A.copy()
+                C[i, i2] = k
+                return C
+
+            def arrayrows():
+                arr = np.array([*map(tuple, tuples)])
+                return None if arr.ndim == 1 else a2(arr)
+            want.append(("raw", {
+                "u1": ints((np.frombuffer(s.encode("utf-8"), "u1") - ord("0")).astype(int)),
+                "reshape": exc(lambda: X.reshape(-1, m), a2),
+                "shape": [str(v) for v in A.shape],
+                "ones": ints(np.ones(max(m, 0))),
+                "takecols": exc(lambda: A[:, np.fromiter(idx, dtype=int)], a2),
+                "sumaxis1": ints(A.sum(axis=1)),
+                "adds": ints(X + k), "subs": ints(X - k), "muls": ints(X * k), "mods": None if k == 0 else ints(X % k), "rsubs": ints(k - X),
+                "abs": ints(np.abs(X)),
+                "mul1": exc(lambda: X * Y, ints), "sub1": exc(lambda: X - Y, ints),
+                "truediv": truediv(),
+                "sum1": str(int(X.sum())),
+                "zeros2": {"w": str(max(k, 0)), "rows": [[str(int(v.real)) for v in r]
+                                                        for r in np.zeros((max(m, 0), max(k, 0)), dtype=complex).tolist()]},
+                "get2": exc(lambda: A[i, i2], lambda v: str(int(v))),
+                "set2": exc(set2, a2),
+                "col": a2(X[:, np.newaxis]), "row": a2(X[np.newaxis, :]),
+                "outer": exc(lambda: X[:, np.newaxis] * Y[np.newaxis, :], a2),
+                "mul2": exc(lambda: A * B, a2), "sub2": exc(lambda: A - B, a2),
+                "divs2": divs2(),
+                "enumerate": [[str(a), str(b)] for a, b in enumerate(xs)],
+                "arrayrows": exc(arrayrows, lambda v: v)}))
+# --- end T15
+
+_STRUCTURED = ("t2_", "t4_", "t14_", "t7_", "t9_", "t15_")  # prelude ops whose answers are structured (compared after normalising ints)
 
 
 def run(seed=0, n=120):
